@@ -214,6 +214,9 @@ impl<F: Float, D: Distance<F>, N: NearestNeighbour>
             self.set_core_distance(n, &neighbors, observations);
             if n.core_distance.is_some() {
                 seeds.clear();
+                // the first point of a cluster is listed before the points it reaches
+                processed.insert(n.index);
+                result.orderings.push(n.clone());
                 // Here we get a list of "density reachable" samples that haven't been processed
                 // and sort them by reachability so we can process the closest ones first.
                 self.get_seeds(
